@@ -177,6 +177,13 @@ impl Tunnel {
                         request.fail_request(err);
                         return;
                     }
+                    (Err(e), _, Some(_)) => {
+                        log_id!(debug, request_id, "Failed to get auth info: {}", e);
+                        request.fail_request(ConnectionError::Authentication(
+                            "Malformed authentication info".to_string(),
+                        ));
+                        return;
+                    }
                     (Err(e), ..) => {
                         log_id!(debug, request_id, "Failed to get auth info: {}", e);
                         request.fail_request(ConnectionError::Io(e));
